@@ -197,7 +197,8 @@ Sem(cmd, p, ins) ==
                 start == PD(p, "StartVal", R(0)) end == PD(p, "EndVal", R(1)) IN
             Ok(Each1(ins[1], LAMBDA c : Lin(c, lo, hi, start, end)))
       [] cmd = "NormalizeZScore" ->
-            Ok(ZScoreLin(Cells(ins[1]), P(p, "TrueThresholdZScore"), P(p, "FalseThresholdZScore"),
+            \* documented defaults (docs/user/lib-eems-basic.rst): the true threshold is the z score 1, the false threshold the z score 0
+            Ok(ZScoreLin(Cells(ins[1]), PD(p, "TrueThresholdZScore", R(1)), PD(p, "FalseThresholdZScore", R(0)),
                          PD(p, "StartVal", R(0)), PD(p, "EndVal", R(1))))
       [] cmd = "CvtToFuzzyZScore" ->
             Ok(MapSeq(Fz, ZScoreLin(Cells(ins[1]), PD(p, "TrueThresholdZScore", R(1)), PD(p, "FalseThresholdZScore", R(-1)),
